@@ -371,7 +371,7 @@ TWIN_WHAT = ('encoding validation (sampling, not a solver verdict): pseudo-rando
 T('C08', 'T1.dbm_model_twin', TWIN_WHAT)
 T('C04', 'T1.dbm_model_twin', TWIN_WHAT, 'thorough')
 T('C09', 'T1.dbm_model_twin', TWIN_WHAT, 'thorough')
-T('C01', 'T1.dbm_model_twin', TWIN_WHAT, 'thorough')
+T('C01', 'T1.dbm_model_twin', TWIN_WHAT)
 
 # retry path (Retrier::run) — Engine M
 M('C05', 'M2.retry_bookkeeping', 'retrier_run', 'retry path: a pending appointment is removed only after its receipt (accepted) or its invalid copy (rejected) was stored, exactly one of the two; whoever stores one also removes the pending record', part='bookkeeping')
@@ -433,6 +433,7 @@ M('C05', 'M3.wtclient_frames', 'wtclient_frames', 'each WTClient bookkeeping met
 M('C05', 'M5.repeated_notification', 'insert_conflict', 'one step of add_pending_appointment / add_invalid_appointment / add_appointment_receipt from every pre-state that satisfies the mirror invariant (row present or not, key in the in-memory set or not): no path unwraps a primary-key conflict of the client database (a repeated notification or a retry racing a notification must not panic with the client state locked and lose every later appointment)', recorders=['add_pending_appointment', 'add_invalid_appointment', 'add_appointment_receipt'])
 M('C14', 'M4.flag_conflict', 'insert_conflict', 'one step of flag_misbehaving_tower from every pre-state (receipt for the locator stored or not, tower already flagged or not): storing the proof never unwraps a primary-key conflict (a misbehaving reply to a repeated notification, or two misbehaving replies in flight, must not crash the client)', recorders=['flag_misbehaving_tower'])
 M('C11', 'M2.purge_race', 'purge_race', 'no interleaving of an API handler (add_appointment / get_appointment / get_subscription_info) with the block that purges its user lets the handler unwrap a failed look-up of the user it authenticated in an earlier critical section (handler abort)')
+M('C13', 'M5.data_not_dropped', 'retry_data_kept', 'RetryManager::manage_retry: a received (tower, data) message is either for an abandoned tower, handed to add_pending_appointments, or met by an idle retrier (which keeps nothing in memory and reloads all pending appointments from the database when woken): data for a stopped or running retrier is never dropped')
 M('C08', 'M1.single_height_read', 'single_height_read', 'Watcher::add_appointment reads the tower height once per accepted request: the start block in the receipt and the one stored with the appointment are the same number whatever block events interleave')
 M('C06', 'M2.uuid_derivation', 'uuid_derivation', 'UUID::new hashes locator || full serialised user key (PublicKey::serialize): distinct users never share a uuid for the same locator')
 K('C11', 'K1.handle_reorged_panic_free', 'teos', _r + 'c04_p3_handle_reorged', 'handle_reorged_txs does not panic for any node reply to the dispute / penalty re-submission (incl. already-in-chain)')
